@@ -1,5 +1,5 @@
 """C13 - configuration estimate is exact without constraints, an upper bound with."""
-from vf import build, semantics
+from vf import build, semantics, strategies as S
 from vf.oracle import Raised, lib
 from vf.props import _bool
 from vf.runner import Sub
@@ -58,43 +58,16 @@ def _is_tautology(e):
         return False
 
 
-def large_models():
-    """Models beyond brute force: wide groups of up to 90 leaves (binomials above 2^53), deep products."""
-    from hypothesis import strategies as st
-
-    @st.composite
-    def gen(draw):
-        n_groups = draw(st.integers(1, 4))
-        rels = []
-        idx = [0]
-
-        def leaf():
-            idx[0] += 1
-            return build.feat(f"L{idx[0]}")
-        for _ in range(n_groups):
-            k = draw(st.one_of(st.integers(2, 12), st.integers(40, 90)))
-            lo = draw(st.integers(0, k))
-            hi = draw(st.one_of(st.integers(lo, k), st.just(-1)))
-            kids = [leaf() for _ in range(k)]
-            if draw(st.booleans()):      # some children get a small subtree
-                j = draw(st.integers(0, k - 1))
-                kids[j]["rels"].append(build.rel(0, 1, [leaf(), leaf()]))
-            rels.append(build.rel(lo, hi, kids))
-        root = build.feat("Root", rels)
-        ctcs = []
-        if draw(st.integers(0, 2)) == 0:
-            ctcs = [{"name": "T", "ast": ["OR", ["T", "L1"], ["NOT", ["T", "L1"]]]}]
-        return {"root": root, "ctcs": ctcs}
-    return gen()
-
-
 def check(case):
+    return _bool.run_with_edits(case, check_fm, "C13")
+
+
+def check_fm(fm, case, out):
     from flamapy.metamodels.fm_metamodel.operations import FMEstimatedConfigurationsNumber
-    out = []
-    fm = build.build(case)
     got = lib(lambda: FMEstimatedConfigurationsNumber().execute(fm).get_result())
     if isinstance(got, Raised):
-        return [(f"C13.raised:{got.label}", got.text)]
+        out.append((f"C13.raised:{got.label}", got.text))
+        return out
     again = lib(lambda: (_bool.long_lived(FMEstimatedConfigurationsNumber).execute(fm), _bool.long_lived(FMEstimatedConfigurationsNumber).execute(fm).get_result())[1])
     if isinstance(again, Raised) or again != got:
         out.append(("C13.reused-object-differs", f"fresh object {got!r}, long-lived object {getattr(again, 'text', again)!r}"))
@@ -115,24 +88,20 @@ def check(case):
 
 
 def nontrivial(case):
-    return _bool.structure_nontrivial(case)
+    return _bool.structure_nontrivial(case["model"] if "edits" in case else case)
 
 
-def _large_classes(case):
-    out = set()
-    for r, _ in build.iter_rels(case["root"]):
-        if len(r["children"]) >= 57:
-            out.add("group>=57")
-        if r["max"] == -1:
-            out.add("rel:star")
-    if case["ctcs"]:
-        out.add("with-tautology")
-    return out
+def classes(case):
+    return _bool.edit_classes(case) if "edits" in case else _bool.structure_classes(case)
 
 
 SUBS = [
-    Sub("large-models", check_large, gen=lambda tier: large_models(), nontrivial=lambda case: True, classes=_large_classes,
-        n={"quick": 60, "thorough": 1500}, essential=["group>=57"]),
+    Sub("large-models", check_large, gen=lambda tier: _bool.large_models(), nontrivial=lambda case: True, classes=_bool.large_classes,
+        n={"quick": 60, "thorough": 1500}, essential=["group>=57", "group>=257"]),
+    Sub("constraint-lists", check, gen=lambda tier: _bool.constraint_list_models(), nontrivial=nontrivial, classes=classes,
+        n={"quick": 200, "thorough": 2500}, essential=["with-ctcs"]),
+    Sub("edit-histories", check, gen=lambda tier: _bool.edit_histories(S.BOOLEAN_ANY, 10, with_ctcs=True),
+        nontrivial=lambda case: True, classes=classes, n={"quick": 100, "thorough": 1500}, essential=["edit:move"]),
     Sub("shapes", check, enum=_bool.enum_shapes, nontrivial=nontrivial, classes=_bool.structure_classes, exhaustive=True),
     Sub("random-no-ctcs", check, gen=lambda tier: _bool.random_models(False), nontrivial=nontrivial,
         classes=_bool.structure_classes, n={"quick": 800, "thorough": 6000},
